@@ -9,10 +9,15 @@ open Amaranth.MemRows (Write newBit newRow toBits activeEdge activeWrite writeOf
 
 /-! ## Hypotheses -/
 
-/-- every write port's enable bits cover the row: `len(en) * granularity ≥ width` (the constructors give equality,
-or width 0) -/
+/-- what the constructors guarantee about a configuration (`C11.ctor_wf`):
+* `gran`   — every write port's enable bits cover the row: `len(en) * granularity ≥ width` (the constructors give
+             equality, or width 0);
+* `transp` — every entry of a read port's transparency list is a write port of this memory and of the read
+             port's own domain (so an asynchronous port has an empty list): `ReadPort.__init__`. -/
 structure WF (c : Cfg) : Prop where
   gran : ∀ k < c.wrs.length, c.shape.width ≤ (c.wrs.getD k default).enw * (c.wrs.getD k default).gran
+  transp : ∀ k < c.rds.length, ∀ j ∈ (c.rds.getD k default).transp,
+    j < c.wrs.length ∧ (c.rds.getD k default).dom = some (c.wrs.getD j default).dom
 
 /-- the state has one row per address and one register per read port -/
 structure Inv (c : Cfg) (s : State) : Prop where
@@ -28,6 +33,14 @@ structure InputsOk (c : Cfg) (inp : Inputs) : Prop where
 def NoCollision (c : Cfg) (clk : List Bool) (inp : Inputs) (e : Event) : Prop :=
   ∀ k1 k2 w1 w2, k1 ≠ k2 → activeWrite c clk inp e k1 = some w1 → activeWrite c clk inp e k2 = some w2 →
     ∀ a i, i < c.shape.width → ¬ (w1.hits a i = true ∧ w2.hits a i = true)
+
+/-- all write ports that have an active clock edge at this event belong to one clock domain (true whenever only
+one domain's clock has an active edge). Between ports of one domain the order of the writes is the port order,
+in the code as in the model; between ports of different domains at coincident edges the real order is the order
+in which the simulator happens to run the two domain processes. -/
+def OneDomain (c : Cfg) (clk : List Bool) (inp : Inputs) (e : Event) : Prop :=
+  ∀ k1 k2 w1 w2, activeWrite c clk inp e k1 = some w1 → activeWrite c clk inp e k2 = some w2 →
+    (c.wrs.getD k1 default).dom = (c.wrs.getD k2 default).dom
 
 /-- every synchronous read port that captures at this event addresses an existing row -/
 def ReadsInRange (c : Cfg) (clk : List Bool) (inp : Inputs) (e : Event) : Prop :=
@@ -83,6 +96,26 @@ theorem match_getD (c : Cfg) (s : State) (inp : Inputs) (e : Event) (hwf : WF c)
     have : activeWrite c s.clk inp e k = none := by unfold activeWrite; simp [hk]
     rw [this]
     exact ⟨rfl, rfl⟩
+
+theorem wvalsDom_getD (c : Cfg) (s : State) (inp : Inputs) (e : Event) (d k : Nat) :
+    (wvalsDom c s inp e d).getD k none =
+      if k < c.wrs.length ∧ (c.wrs.getD k default).dom = d then wvalOf c s inp e k else none := by
+  unfold wvalsDom
+  rw [List.getD_eq_getElem?_getD, List.getElem?_map]
+  by_cases hk : k < c.wrs.length
+  · rw [List.getElem?_range hk]
+    simp only [Option.map_some, Option.getD_some, hk, true_and]
+  · rw [if_neg (fun h => hk h.1), List.getElem?_eq_none (by simp; omega)]; rfl
+
+/-- a write port of domain `d` is found in the `write_vals` of the process of domain `d` -/
+theorem match_getD_dom (c : Cfg) (s : State) (inp : Inputs) (e : Event) (hwf : WF c) (hin : InputsOk c inp)
+    (a i k d : Nat) (hi : i < c.shape.width) (hk : k < c.wrs.length) (hd : (c.wrs.getD k default).dom = d) :
+    mHits (fun k => (wvalsDom c s inp e d).getD k none) a i k = sHits (activeWrite c s.clk inp e) a i k ∧
+    mData (fun k => (wvalsDom c s inp e d).getD k none) i k = sData (activeWrite c s.clk inp e) i k := by
+  have := match_lt c s inp e hwf hin a i k hi hk
+  unfold mHits mData at this ⊢
+  simp only [wvalsDom_getD, if_pos (And.intro hk hd)]
+  exact this
 
 /-- `NoCollision` makes the hitting ports agree on the data bit -/
 theorem compat_of_noCollision (c : Cfg) (clk : List Bool) (inp : Inputs) (e : Event)
@@ -166,7 +199,7 @@ theorem step_rdata_getD (c : Cfg) (s : State) (inp : Inputs) (e : Event) (k : Na
       | none => s.rdata.getD k 0
       | some d =>
         if runs c s e d = true ∧ (inp.rd.getD k default).en = true then
-          capture c s.rows (wvals c s inp e) (c.rds.getD k default) (inp.rd.getD k default)
+          capture c s.rows (wvalsDom c s inp e d) (c.rds.getD k default) (inp.rd.getD k default)
         else s.rdata.getD k 0 := by
   have hr : c.rds.getD k default = c.rds[k] := by
     rw [List.getD_eq_getElem?_getD, List.getElem?_eq_getElem hk]; rfl
@@ -186,25 +219,37 @@ theorem step_rdata_getD (c : Cfg) (s : State) (inp : Inputs) (e : Event) (k : Na
 
 /-- bit `i` of what an enabled synchronous read port captures (address in range), as the simulator computes it:
 the committed row, overwritten by every port of the transparency list that hits the bit, in list order -/
-theorem capture_bits (c : Cfg) (s : State) (inp : Inputs) (e : Event) (r : RdCfg) (ri : RdIn) (i : Nat)
-    (hi : i < c.shape.width) (hin : ri.addr < 2 ^ c.abits) (ha : ri.addr < s.rows.length) :
-    ibit (capture c s.rows (wvals c s inp e) r ri) i =
-      seqBitI (mHits (fun k => (wvals c s inp e).getD k none) ri.addr i)
-        (mData (fun k => (wvals c s inp e).getD k none) i) r.transp (ibit (s.rows.getD ri.addr 0) i) := by
+theorem capture_bits (c : Cfg) (rows : List Int) (wvs : List (Option WVal)) (r : RdCfg) (ri : RdIn) (i : Nat)
+    (hi : i < c.shape.width) (hin : ri.addr < 2 ^ c.abits) (ha : ri.addr < rows.length) :
+    ibit (capture c rows wvs r ri) i =
+      seqBitI (mHits (fun k => wvs.getD k none) ri.addr i)
+        (mData (fun k => wvs.getD k none) i) r.transp (ibit (rows.getD ri.addr 0) i) := by
   unfold capture
   simp only [Nat.mod_eq_of_lt hin]
   rw [ibit_norm _ _ _ hi, patchAll_bits]
   unfold memRead
   rw [if_pos ha]
 
+/-- the same in the Spec's vocabulary, for a read port of domain `d` whose transparency list names write ports of
+domain `d` only (`WF.transp`) -/
 theorem capture_bits_spec (c : Cfg) (s : State) (inp : Inputs) (e : Event) (hwf : WF c) (hio : InputsOk c inp)
-    (r : RdCfg) (ri : RdIn) (i : Nat)
+    (r : RdCfg) (ri : RdIn) (d i : Nat)
+    (htr : ∀ j ∈ r.transp, j < c.wrs.length ∧ (c.wrs.getD j default).dom = d)
     (hi : i < c.shape.width) (hin : ri.addr < 2 ^ c.abits) (ha : ri.addr < s.rows.length) :
-    ibit (capture c s.rows (wvals c s inp e) r ri) i =
+    ibit (capture c s.rows (wvalsDom c s inp e d) r ri) i =
       seqBitI (sHits (activeWrite c s.clk inp e) ri.addr i) (sData (activeWrite c s.clk inp e) i) r.transp
         (ibit (s.rows.getD ri.addr 0) i) := by
-  rw [capture_bits c s inp e r ri i hi hin ha]
-  exact seqBitI_congr _ _ (fun k _ => match_getD c s inp e hwf hio ri.addr i k hi)
+  rw [capture_bits c s.rows _ r ri i hi hin ha]
+  exact seqBitI_congr _ _ (fun k hk => match_getD_dom c s inp e hwf hio ri.addr i k d hi (htr k hk).1 (htr k hk).2)
+
+/-- `WF.transp` for read port `k` of domain `d` -/
+theorem WF.transp_dom {c : Cfg} (hwf : WF c) (k d : Nat) (hk : k < c.rds.length)
+    (hdom : (c.rds.getD k default).dom = some d) :
+    ∀ j ∈ (c.rds.getD k default).transp, j < c.wrs.length ∧ (c.wrs.getD j default).dom = d := by
+  intro j hj
+  have := hwf.transp k hk j hj
+  rw [hdom] at this
+  exact ⟨this.1, (Option.some.inj this.2).symm⟩
 
 theorem refine_rdata (c : Cfg) (s : State) (inp : Inputs) (e : Event) (hwf : WF c) (hinv : Inv c s)
     (hin : InputsOk c inp) (hnc : NoCollision c s.clk inp e) (hrr : ReadsInRange c s.clk inp e) :
@@ -241,7 +286,9 @@ theorem refine_rdata (c : Cfg) (s : State) (inp : Inputs) (e : Event) (hwf : WF 
         rw [hg]
         apply newRow_toBits
         intro i hi
-        rw [capture_bits_spec c s inp e hwf hin _ _ i hi (hin.rd k) ha, newBit_filterMap]
+        have htr := hwf.transp_dom k d hk (by rw [hr]; exact hdom)
+        rw [hr] at htr
+        rw [capture_bits_spec c s inp e hwf hin _ _ d i htr hi (hin.rd k) ha, newBit_filterMap]
         exact seqBitI_eq_newBitI _ _ _ _ (compat_of_noCollision c s.clk inp e hnc _ i hi _)
       · rw [if_neg hcap, if_neg hcap]
 
@@ -259,6 +306,19 @@ theorem refine_step (c : Cfg) (s : State) (inp : Inputs) (e : Event) (hwf : WF c
 
 theorem inv_step (c : Cfg) (s : State) (inp : Inputs) (e : Event) (hinv : Inv c s) : Inv c (step c s inp e) :=
   ⟨by rw [step_rows_length]; exact hinv.rows, step_rdata_length c s inp e⟩
+
+/-- the repaired simulator never consults a reset signal: the rows and the read-port outputs after an event do
+not depend on the event's reset levels nor on the previous ones (true by construction of `step`; that the *code*
+behaves so is what the check's walks with reset pulses establish) -/
+theorem step_ignores_reset (c : Cfg) (s : State) (inp : Inputs) (clk r1 r2 r0 : List Bool) :
+    (step c s inp ⟨clk, r1⟩).rows = (step c { s with rst := r0 } inp ⟨clk, r2⟩).rows ∧
+    (step c s inp ⟨clk, r1⟩).rdata = (step c { s with rst := r0 } inp ⟨clk, r2⟩).rdata :=
+  ⟨rfl, rfl⟩
+
+/-- the initial state of a configuration whose lists have the declared lengths (`C11.inv_init` derives them from
+the constructors) -/
+theorem inv_init_of_lengths (c : Cfg) (h1 : c.init.length = c.depth) (h2 : c.rdInit.length = c.rds.length) :
+    Inv c (init c) := ⟨h1, h2⟩
 
 theorem step_clk (c : Cfg) (s : State) (inp : Inputs) (e : Event) : (step c s inp e).clk = e.clk := rfl
 
